@@ -747,6 +747,9 @@ FAULT_MATRIX = [
     ("hashpanic_nth", "ins_absent"), ("hashpanic_nth", "reserve"), ("hashpanic_nth", "entry_absent"), ("hashpanic_nth", "shrinktofit"),
     ("hashpanic_nth", "extend_absent"), ("hashpanic_nth", "ins_absent_full"), ("hashpanic_nth", "rentry_absent_full"),
     ("clonepanic_nth", "o_clone"), ("clonepanic_nth", "o_clone_from"),
+    # the iterator handed to extend panics after p pairs; the Into conversion of entry_ref panics
+    ("iterpanic", "extendp"), ("iterpanic", "extendp"), ("iterpanic", "extendp_full"),
+    ("intopanic", "eref_absent"), ("intopanic", "eref_present"), ("intopanic", "eref_absent_full"),
 ]
 
 def make_fault_matrix_script(rng, name, kind=None):
@@ -783,7 +786,9 @@ def make_fault_matrix_script(rng, name, kind=None):
         kth = rng.choice([0, 0, 1, 1, 2, 3, 5])
         if op == "entry_closure":
             kth = 0
-        if op != "foldconsumer":
+        if arm == "intopanic":
+            g.emit("arm intopanic")
+        elif op != "foldconsumer" and arm != "iterpanic":
             g.emit(f"arm {arm} {kth}")
         pres = g.present() if g.contents else 0
         ab = g.absent()
@@ -819,6 +824,14 @@ def make_fault_matrix_script(rng, name, kind=None):
                                f"raw_and_replace {pres} {g.st()} none 0", f"entry_and_modify {pres} {g.st()} 1 {g.val()}"]))
         elif op == "foldconsumer":
             g.emit(f"{rng.choice(['intoiter', 'intokeys', 'intovalues', 'drain'])}fold {rng.choice([0, 1])} {kth}")
+        elif op in ("extendp", "extendp_full"):
+            # a mix of present and absent keys (repeats included); the iterator panics after p of them
+            ks = [rng.choice([pres, ab, rng.randrange(64), rng.randrange(64)]) for _ in range(rng.choice([1, 3, 6, 12, 30]))]
+            p = rng.choice([0, 0, 1, 2, len(ks) // 2, max(0, len(ks) - 1), len(ks), len(ks) + 2])
+            g.emit(f"extendp {p} " + " ".join(f"{k}:{g.st()}:{g.val()}" for k in ks))
+        elif op in ("eref_absent", "eref_absent_full", "eref_present"):
+            k = pres if op == "eref_present" else ab
+            g.emit(rng.choice([f"eref_or_insert {k} {g.st()} {g.val()}", f"eref_insert {k} {g.st()} {g.val()}", f"eref_drop {k} {g.st()}"]))
         elif op == "entry_absent":
             g.emit(rng.choice([f"entry_or_insert {ab} {g.st()} {g.val()}", f"entry_insert {ab} {g.st()} {g.val()}", f"tryinsert {ab} {g.st()} {g.val()}"]))
         elif op == "rentry_absent_full":
